@@ -887,10 +887,19 @@ func (s *Sim) RealStartProbe(i int) (real, sync map[string]interface{}, err erro
 		return nil, sync, err
 	}
 	s.Nodes[i] = n2
-	if _, err := n2.CS.Start(); err != nil {
-		s.shutdown(n2)
-		os.RemoveAll(n2.Dir)
-		return nil, sync, err
+	started := make(chan error, 1)
+	go func() { _, err := n2.CS.Start(); started <- err }()
+	select {
+	case err := <-started:
+		if err != nil {
+			s.shutdown(n2)
+			os.RemoveAll(n2.Dir)
+			return nil, sync, err
+		}
+	case <-time.After(20 * time.Second):
+		// OnStart (WAL catch-up before the receive routine exists) never returned: the node is stuck on itself.
+		// The stuck goroutine cannot be reclaimed; its directory is left to the final cleanup of the simulation directory.
+		return nil, sync, fmt.Errorf("Start() blocked: OnStart did not return within 20s")
 	}
 	// quiescence: the internal queue stays empty and the round state stops changing
 	last := ""
